@@ -54,7 +54,7 @@ theorem snapshot_walk_gen (e : Env) (hids : EnvIds e) (s : St) (lh : Int) (dest 
       (walk e s lh dest prune).1.pool.length + 1 ≤ fuel) :
     snapshotGet e (walk e s lh dest prune).1 confH (e.block B).height key fuel = curVer (XV.C01.canon e g B) key := by
   obtain ⟨w1, w2⟩ := XV.C01.walk_canonical e s lh dest prune g hpl hok hinv hchain hpool hs
-  have hP := pends_foldl e lh s.pool ({ XV.C01.canon e g dest with pool := [] } : St)
+  have hP := pends_foldl e lh (repostList e s) ({ XV.C01.canon e g dest with pool := [] } : St)
   obtain ⟨l, p1, p2, p3⟩ := hP.run
   have hX : curVer ({ XV.C01.canon e g dest with pool := [] } : St) =
       curVer (replayChain e (ancestors e (e.blocks.length + 1) dest).reverse g) := rfl
